@@ -101,11 +101,13 @@ func (self ValueString) Fields() (map[string]*Value, *VmInterrupt) {
 		"substring": NewValueBuiltinFunction(func(executor Executor, cancelCtx *context.Context, span errors.Span, args ...Value) (*Value, *VmInterrupt) {
 			upper := args[0].(ValueInt).Inner
 
-			if upper < 0 || upper > int64(len(self.Inner)) {
+			// the first `upper` characters (not bytes)
+			chars := []rune(self.Inner)
+			if upper < 0 || upper > int64(len(chars)) {
 				return nil, NewVMThrowInterrupt(span, "index out of range")
 			}
 
-			sub := self.Inner[0:upper]
+			sub := string(chars[0:upper])
 			return NewValueString(sub), nil
 		}),
 		"parse_json": NewValueBuiltinFunction(func(executor Executor, cancelCtx *context.Context, span errors.Span, args ...Value) (*Value, *VmInterrupt) {
